@@ -196,6 +196,24 @@ JudgeLinesplit(e) ==
   ELSE LET c == LinesplitVerdict([j \in 1..Len(e.res.vs) |-> Cells(e.res.vs[j])], Cells(e.f.v), e.cols)
        IN IF c # "ok" THEN V("Linesplit." \o c, FALSE) ELSE V("ok", e.res.vs = ImplLinesplit(e.f.v, e.cols))
 
+\* a text longer than the usual buffer sizes: judged on scalar facts - e.ws the lengths of its words in order, e.lens the
+\* lengths of the lines, e.same the harness's observation that the lines hold the words' characters in order with single
+\* joining spaces under the one formatting - against the greedy reference computed on lengths (Wrap.AbsLinesplit, on
+\* lengths instead of cells: a word goes on the current line if it fits behind a space, otherwise starts a new one, cut
+\* into full-length pieces when it is longer than a line)
+PieceLens(w, n) == [p \in 1..((w + n - 1) \div n) |-> IF p * n <= w THEN n ELSE w - (p - 1) * n]
+RECURSIVE GreedyLens(_, _, _, _)
+GreedyLens(ws, k, n, acc) ==
+  IF k > Len(ws) THEN acc
+  ELSE IF acc # <<>> /\ acc[Len(acc)] + 1 + ws[k] <= n THEN GreedyLens(ws, k + 1, n, [acc EXCEPT ![Len(acc)] = @ + 1 + ws[k]])
+  ELSE GreedyLens(ws, k + 1, n, acc \o PieceLens(ws[k], n))
+JudgeLinesplitLong(e) ==
+  IF e.k # "ok" THEN V("Linesplit.Raised", FALSE)
+  ELSE IF e.same # 1 THEN V("Linesplit.WordsInOrderSingleSpaces", FALSE)
+  ELSE IF \E j \in 1..Len(e.lens) : e.lens[j] > e.cols THEN V("Linesplit.LineTooLong", FALSE)
+  ELSE IF e.lens # GreedyLens(e.ws, 1, e.cols, <<>>) THEN V("Linesplit.GreedyLines", FALSE)
+  ELSE V("ok", TRUE)
+
 (* ---------------------------------------------------------------- C15 *)
 \* empty runs' attributes count as attributes the original had (weakest reading)
 EmptyRunAtts(f) == LET es == SelectSeq(f, LAMBDA r : r[1] = <<>>) IN [k \in 1..Len(es) |-> Disp(es[k][2])]
@@ -256,6 +274,7 @@ Judge(e) ==
     [] e.op = "wsplit" -> JudgeWsplit(e)
     [] e.op = "wsplitlong" -> JudgeWsplitLong(e)
     [] e.op = "linesplit" -> JudgeLinesplit(e)
+    [] e.op = "linesplitlong" -> JudgeLinesplitLong(e)
     [] e.op = "split" -> JudgeSplit(e)
     [] e.op = "splitlines" -> JudgeSplitlines(e)
     [] e.op = "just" -> JudgeJust(e)
